@@ -8,6 +8,20 @@ def py_index(l, i):
     return l[i] if -len(l) <= i < len(l) else None
 
 
+def promote(lists, before, p):
+    """`set_parent_to_traversal()` on the reference lists: a pending traversal element (no parent, a traversal parent) is listed by its
+    traversal parent, and so on up the chain (what receiving a real child does to the receiving element since the repair of D34)"""
+    seen = set()
+    x = p
+    while x not in seen and before[x][1] is None and before[x][2] is not None:
+        seen.add(x)
+        q = before[x][2]
+        if x not in lists[q]:
+            lists[q].append(x)
+        x = q
+    return lists
+
+
 def expected_lists(op, before, names=None):
     """the ordered-list reference model on the low-level vocabulary: expected child lists after a *successful* op, or None when
     the op is outside what C09 speaks of (traversal children, moves of an already listed child)"""
@@ -21,8 +35,10 @@ def expected_lists(op, before, names=None):
             told = py_index([c for c in before[p][3] if names[c] == names[new]], i)
             if told is not None and told != new:
                 return None                   # a pending traversal child is addressed: replaced in the shadow index, then appended
-            return expected_lists(('A', p, new), before)
-        return expected_lists(('X', p, old, new), before)
+            r = expected_lists(('A', p, new), before)
+        else:
+            r = expected_lists(('X', p, old, new), before)
+        return promote(r, before, p) if r is not None else None      # `ElementList.set` ends with set_parent_to_traversal()
     if k == 'D':
         p, nm, i = op[1], op[2], op[3]
         c = py_index([c for c in lists[p] if names[c] == nm], i)
@@ -37,6 +53,7 @@ def expected_lists(op, before, names=None):
             lists[before[c][1]].remove(c)     # copy by reference is a move: one parent only
         if c not in lists[p]:
             lists[p].append(c)
+            promote(lists, before, p)         # receiving a real child materialises a pending traversal element (D34)
         return lists
     if k == 'R':
         p, c = op[1], op[2]
